@@ -34,7 +34,7 @@ type PeerPlan struct {
 	KeySeed uint64 `json:"key_seed"`
 	Role    string `json:"role"` // attacker role: "dial" (victim listens) | "accept" (victim dials)
 	// one handshake knob
-	Knob string `json:"knob"` // none | pubkey-offcurve | pubkey-zero | pubkey-half | nonce-zero | version-0 | version-big | sig-flip | extra-elems | close-mid
+	Knob string `json:"knob"` // none | pubkey-offcurve | pubkey-zero | pubkey-half | nonce-zero | version-0 | version-big | sig-flip | extra-elems | close-mid | silent-after-enc
 	// protocol handshake
 	HelloVersion uint64         `json:"hello_version"`
 	HelloCaps    string         `json:"hello_caps"` // match | none | many | dup | other-version
@@ -48,7 +48,7 @@ const maxUint24 = 1<<24 - 1
 func genPeer(rng *kernel.RNG, env *kernel.Env) *PeerPlan {
 	p := &PeerPlan{KeySeed: rng.Uint64(), Role: []string{"dial", "accept"}[rng.Intn(2)], Knob: "none", HelloVersion: 5, HelloCaps: "match", HelloName: 8, HelloID: "own"}
 	if rng.Intn(3) == 0 {
-		p.Knob = []string{"pubkey-offcurve", "pubkey-zero", "pubkey-half", "nonce-zero", "version-0", "version-big", "sig-flip", "extra-elems", "close-mid"}[rng.Intn(9)]
+		p.Knob = []string{"pubkey-offcurve", "pubkey-zero", "pubkey-half", "nonce-zero", "version-0", "version-big", "sig-flip", "extra-elems", "close-mid", "silent-after-enc", "silent-after-enc"}[rng.Intn(11)]
 	}
 	if rng.Intn(4) == 0 {
 		p.HelloVersion = []uint64{0, 3, 4, 6, 1 << 40}[rng.Intn(5)]
@@ -62,7 +62,7 @@ func genPeer(rng *kernel.RNG, env *kernel.Env) *PeerPlan {
 	if rng.Intn(6) == 0 {
 		p.HelloID = []string{"zero", "other"}[rng.Intn(2)]
 	}
-	kinds := []string{"honest", "honest", "bomb-over", "bomb-at-limit", "bomb-huge-claim", "bad-snappy", "empty", "code-out-of-range", "ping-flood", "pong", "hello-again", "disc-garbage", "honest-big"}
+	kinds := []string{"honest", "honest", "bomb-over", "bomb-at-limit", "bomb-huge-claim", "bad-snappy", "empty", "code-out-of-range", "ping-flood", "pong", "hello-again", "disc-garbage", "honest-big", "boundary", "boundary"}
 	for i := rng.Range(1, 8); i > 0; i-- {
 		p.Frames = append(p.Frames, HostileFrame{Kind: kinds[rng.Intn(len(kinds))], A: rng.Intn(256)})
 	}
@@ -75,9 +75,10 @@ func snappyOf(n int, fill byte) []byte {
 }
 
 type peerRecv struct {
-	code uint64
-	size uint32
-	n    int
+	code  uint64
+	size  uint32
+	n     int
+	proto string
 }
 
 func execPeer(p *PeerPlan, col *kernel.Collector) []kernel.Violation {
@@ -85,20 +86,24 @@ func execPeer(p *PeerPlan, col *kernel.Collector) []kernel.Violation {
 	p2p.NoCountdown = true
 	var mu sync.Mutex
 	var received []peerRecv
-	proto := p2p.Protocol{Name: "sim", Version: 1, Length: 16, Run: func(peer *p2p.Peer, rw p2p.MsgReadWriter) error {
-		for {
-			msg, err := rw.ReadMsg()
-			if err != nil {
-				return err
+	mkProto := func(name string, length uint64) p2p.Protocol {
+		return p2p.Protocol{Name: name, Version: 1, Length: length, Run: func(peer *p2p.Peer, rw p2p.MsgReadWriter) error {
+			for {
+				msg, err := rw.ReadMsg()
+				if err != nil {
+					return err
+				}
+				n, _ := io.Copy(io.Discard, msg.Payload)
+				mu.Lock()
+				received = append(received, peerRecv{msg.Code, msg.Size, int(n), name})
+				mu.Unlock()
 			}
-			n, _ := io.Copy(io.Discard, msg.Payload)
-			mu.Lock()
-			received = append(received, peerRecv{msg.Code, msg.Size, int(n)})
-			mu.Unlock()
-		}
-	}}
+		}}
+	}
+	// two sub-protocols: "sim" takes wire codes 16..31, "sin" (sorted after it) 32..35
+	proto, proto2 := mkProto("sim", 16), mkProto("sin", 4)
 	kV, kA, kH := keyFrom(p.KeySeed, 1), keyFrom(p.KeySeed, 2), keyFrom(p.KeySeed, 3)
-	srv := &p2p.Server{Config: &p2p.Config{PrivateKey: kV, MaxPeers: 10, NoDiscovery: true, NoDial: true, Name: "victim", ChainId: 3, Protocols: []p2p.Protocol{proto}}}
+	srv := &p2p.Server{Config: &p2p.Config{PrivateKey: kV, MaxPeers: 10, NoDiscovery: true, NoDial: true, Name: "victim", ChainId: 3, Protocols: []p2p.Protocol{proto, proto2}}}
 	if err := srv.Start(context.Background()); err != nil {
 		return []kernel.Violation{{Class: "harness-server-start", Detail: err.Error()}}
 	}
@@ -183,13 +188,32 @@ func execPeer(p *PeerPlan, col *kernel.Collector) []kernel.Violation {
 	case <-time.After(20 * time.Second):
 	}
 	sessionUp := false
+	var boundarySent []uint64
+	if herr == nil && ap != nil && p.Knob == "silent-after-enc" {
+		// the encryption handshake is complete; the attacker now says nothing at all. The
+		// victim must give the connection up within its handshake timeout.
+		col.Inc("probe_attacker_completed_encryption_handshake")
+		select {
+		case <-setupDone:
+			col.Inc("probe_silent_peer_dropped_in_time")
+		case <-time.After(25 * time.Second):
+			vs = append(vs, kernel.Violation{Class: "rlpx-setup-never-returns", Detail: fmt.Sprintf("the peer completed the encryption handshake (role %s) and then stayed silent: 25 simulated seconds later SetupConn still holds the connection (the handshake timeout is 5 s)", p.Role)})
+			ap.Close()
+			a1.Close()
+			return vs
+		}
+		ap.Close()
+		a1.Close()
+		setupDone <- nil
+		herr = fmt.Errorf("silent")
+	}
 	if herr == nil && ap != nil {
 		col.Inc("probe_attacker_completed_encryption_handshake")
 		// ---- protocol handshake
 		hello := p2p.SimHello{Version: p.HelloVersion, Name: string(bytes.Repeat([]byte{'n'}, p.HelloName)), ListenPort: 30303, ID: attackerID}
 		switch p.HelloCaps {
 		case "match":
-			hello.Caps = []p2p.Cap{{Name: "sim", Version: 1}}
+			hello.Caps = []p2p.Cap{{Name: "sim", Version: 1}, {Name: "sin", Version: 1}}
 		case "many":
 			for i := 0; i < 400; i++ {
 				hello.Caps = append(hello.Caps, p2p.Cap{Name: fmt.Sprintf("c%02d", i%100), Version: uint(i)})
@@ -247,6 +271,10 @@ func execPeer(p *PeerPlan, col *kernel.Collector) []kernel.Violation {
 				err = ap.WriteRaw(16+uint64(f.A%16), rng.Bytes(1+f.A))
 			case "empty":
 				err = ap.WriteRaw(16+uint64(f.A%16), nil)
+			case "boundary":
+				// the codes around the seams between the base protocol, "sim" and "sin" and past the end
+				err = ap.WriteMsg([]uint64{15, 16, 31, 32, 35, 36, 37}[f.A%7], []byte{0xc0})
+				boundarySent = append(boundarySent, []uint64{15, 16, 31, 32, 35, 36, 37}[f.A%7])
 			case "code-out-of-range":
 				err = ap.WriteMsg(32+uint64(f.A)*1_000_000, []byte{0xc0})
 			case "ping-flood":
@@ -292,6 +320,11 @@ func execPeer(p *PeerPlan, col *kernel.Collector) []kernel.Violation {
 	for _, g := range got {
 		if g.size > maxUint24 || g.n > maxUint24 {
 			vs = append(vs, kernel.Violation{Class: "rlpx-message-beyond-size-limit-delivered", Detail: fmt.Sprintf("the protocol handler was handed a message of %d bytes (announced %d); the limit is %d (role %s, frames %+v)", g.n, g.size, maxUint24, p.Role, p.Frames)})
+			return vs
+		}
+		// a delivered message belongs to the protocol whose code range its wire code fell into
+		if (g.proto == "sim" && g.code >= 16) || (g.proto == "sin" && g.code >= 4) {
+			vs = append(vs, kernel.Violation{Class: "rlpx-message-delivered-with-code-outside-the-protocol", Detail: fmt.Sprintf("protocol %q (length %d) was handed a message with code %d (boundary wire codes sent: %v)", g.proto, map[string]int{"sim": 16, "sin": 4}[g.proto], g.code, boundarySent)})
 			return vs
 		}
 		if int(g.size) != g.n {
